@@ -81,6 +81,23 @@ def record_sites(program: list[dict[str, Any]], env: Env | None = None, out: dic
     return out
 
 
+def creation_envs(program: list[dict[str, Any]], env: Env | None = None, out: dict[str, Env] | None = None) -> dict[str, Env]:
+    """scope name -> environment of the place where the scope OBJECT is created (`ctx.scope(...)` is called): where the block stands,
+    or where its `prepare` step stands; completion callbacks are the creator's code and see that environment"""
+    env = env or Env()
+    out = {} if out is None else out
+    for step in program:
+        if step["op"] == "prepare":
+            out[step["block"]["name"]] = env
+        elif step["op"] == "block":
+            if not step.get("prepared") and step["kind"] in ("ascope", "sscope"):
+                out[step["name"]] = env
+            creation_envs(step["body"], env.push(step), out)
+        elif step["op"] == "spawn":
+            creation_envs(step["body"], env, out)
+    return out
+
+
 def expected(program: list[dict[str, Any]], env: Env | None = None, out: dict[int, dict[str, Any]] | None = None) -> dict[int, dict[str, Any]]:
     env = env or Env()
     out = {} if out is None else out
@@ -422,6 +439,8 @@ class World:
         self.metrics: dict[str, Any] = {}
         self.log_excs: dict[int, BaseException] = {}
         self.on_completion: Any = None
+        self.completion_lookups = False  # completion doubles also ask the context for every family type (C01)
+        self.completion_views: dict[str, dict[str, Any]] = {}
         self.seq = 0  # logical clock for spawn / block-entry ordering
         self.block_entry_seq: dict[str, int] = {}
         self.tg_parked: list[dict[str, Any]] = []  # task-group probes waiting to be released (own low-priority queue)
@@ -493,6 +512,11 @@ class World:
             except BaseException as exc:  # noqa: BLE001
                 snap = ("error", repr(exc))
             self.event("completion", name, *snap)
+            if self.completion_lookups:
+                from haiway import ctx
+
+                # a completion callback is the code of whoever created the scope: it runs after (outside of) the scope it reports on
+                self.completion_views[name] = {t: _outcome(lambda T=family.TYPES[t]: ctx.state(T)) for t in family.NAMES}
             if self.on_completion is not None:
                 self.on_completion(name, metrics)
 
@@ -697,6 +721,22 @@ async def run_steps(W: World, steps: list[dict[str, Any]], rng: random.Random | 
                     while me is not None and me.cancelling():
                         me.uncancel()
                 continue
+            if step["via"] in ("cached", "cached-method"):
+                # not a spawn of the program either: the steps run through haiway's async cache (a function - or method - cached for
+                # this one call, so nothing is shared with anyone): the invocation is a task started where the call is made
+                from haiway import cache
+
+                W.event("cached-call", name)
+                if step["via"] == "cached":
+                    await cache(limit=2)(child)()
+                else:
+                    class Service:
+                        @cache(limit=2)
+                        async def run(self) -> None:
+                            await child()
+
+                    await Service().run()
+                continue
             if step["via"] == "ctx":
                 W.tasks[name] = ctx.spawn(child)
             elif step["via"] == "ctx-callback":
@@ -799,7 +839,8 @@ async def run_steps(W: World, steps: list[dict[str, Any]], rng: random.Random | 
             states = [family.make(t, u) for t, u in blk["supply"]]
             W.event("prepare", blk["name"])
             assert blk["kind"] in ("ascope", "sscope")  # ctx.updated binds its parent state when it is called, by design
-            W.prepared[blk["name"]] = ctx.scope(blk.get("scope_name", blk["name"]), *states)
+            kwp: dict[str, Any] = {"completion": W.completion(blk["name"], blk["completion"])} if blk.get("completion") else {}
+            W.prepared[blk["name"]] = ctx.scope(blk.get("scope_name", blk["name"]), *states, **kwp)
         elif op == "call":  # python-only step (not JSON): await a harness coroutine function
             await step["fn"](W)
         elif op == "log":
